@@ -166,6 +166,38 @@ def oracle_grid(res, g):
                                                                    "g_12_sign_mismatch": s12, "g_12_max_rel": w12}
         if w11 > 0.5 or w22 > 0.5:
             bad.append(("displacement", "g_11 / hy^2 differ from the squared displacements per dx^2, dy^2 by %.2g / %.2g" % (w11, w22)))
+        # the y-faces, including those on region joins: the poloidal part of g_22 at ylow is the squared distance per dy^2 between the
+        # two cell centres either side of the face (chord <= arc, within the curvature of one cell)
+        if all(k in v for k in ("g_22_ylow", "g_23_ylow", "g_33_ylow")):
+            regs = g["extras"]["regions"]
+            hyl2 = v["g_22_ylow"] - v["g_23_ylow"] ** 2 / v["g_33_ylow"]
+            wy, wy_where = 0.0, None
+            for chain in meta["y_groups"]:
+                first = regs[chain[0]]
+                periodic = first["connections"].get("lower") is not None
+                sx0 = meta["region_indices"][chain[0]][0]
+                for xi in range(sx0.stop - sx0.start):
+                    cen, fac = [], []
+                    for rid in chain:
+                        sx, sy = meta["region_indices"][rid]
+                        x = sx.start + xi
+                        for y in range(sy.start, sy.stop):
+                            cen.append((Rc[x, y], Zc[x, y]))
+                            fac.append((hyl2[x, y], v["dy"][x, y], rid, x, y, Ry[x, y], Zy[x, y]))
+                    for k in range(len(cen)):
+                        if k == 0 and not periodic:
+                            continue
+                        h2, dyk, rid, x, y, fr, fz = fac[k]
+                        # two chords centre -> face -> centre (the face is where the contour turns most, e.g. next to an X-point)
+                        d2 = (np.hypot(fr - cen[k - 1][0], fz - cen[k - 1][1]) + np.hypot(cen[k][0] - fr, cen[k][1] - fz)) ** 2 / dyk ** 2
+                        if np.isfinite(h2) and np.isfinite(d2) and d2 > 0 and h2 > 0:
+                            e = abs(np.sqrt(h2 / d2) - 1.0)
+                            if e > wy:
+                                wy, wy_where = float(e), (rid, x, y)
+            res.extra.setdefault("displacement_products", {})[name]["hy_ylow_max_rel"] = wy
+            if wy > 0.15:
+                bad.append(("displacement-ylow", "sqrt(g_22 - g_23^2/g_33) at a y-face differs from the distance per dy between the neighbouring cell centres by %.2g "
+                            "(relative) at region %s, (x, y) = (%d, %d)" % ((wy,) + wy_where)))
         if n12 and s12 > 0.1 * n12:
             bad.append(("displacement-g12-sign", "g_12 has the opposite sign of the scalar product of the x and y displacements at %d of %d cells" % (s12, n12)))
     for wid, msg in bad:
